@@ -262,3 +262,108 @@ package cryptobyte
 //@ let C = S[hdrlen(S):total(S)]
 //@ ensures result == (valid(S) && S[0] == 2 && len(C) >= 1 && (len(C) == 1 || !((C[0] == 0 && C[1] < 128) || (C[0] == 255 && C[1] >= 128))) && len(C) <= 8)
 //@ ensures implies(result, advanced(*s, S, total(S)))
+
+// ---- Builder (C22, writer side) ----
+// appended(b, n): b.result is the old b.result with n more bytes at the end
+// (same backing array when the capacity sufficed).
+//@ pred binv(b) = 0 <= b.offset && 0 <= b.pendingLenLen && b.offset + b.pendingLenLen <= len(b.result)
+//@ pred grown(r, r0, n) = len(r) == len(r0) + n && ite(cap(r0) >= len(r0) + n, ref(r) == ref(r0) && off(r) == off(r0) && cap(r) == cap(r0), newobj(r))
+
+//@ func (*Builder).add
+//@ props C22
+//@ may_panic_when b.err == nil && b.child != nil
+//@ modifies b.err
+//@ modifies b.result
+//@ modifies b.result[len(b.result):len(b.result)+len(bytes)]
+//@ ensures implies(old(b.err) != nil, b.err == old(b.err) && hdr(b.result, old(b.result)))
+//@ ensures implies(old(b.err) == nil && b.fixedSize && len(old(b.result)) + len(bytes) > cap(old(b.result)), b.err != nil && hdr(b.result, old(b.result)))
+//@ ensures implies(old(b.err) == nil && !(b.fixedSize && len(old(b.result)) + len(bytes) > cap(old(b.result))), b.err == nil && grown(b.result, old(b.result), len(bytes)))
+//@ ensures implies(b.err == nil, forall(i, 0, len(old(b.result)), b.result[i] == old(b.result[i])))
+//@ ensures implies(b.err == nil, forall(i, 0, len(bytes), b.result[len(old(b.result)) + i] == old(bytes[i])))
+//@ ensures implies(b.err != nil, forall(i, 0, len(old(b.result)), b.result[i] == old(b.result[i])))
+//@ canary ensures b.err == nil
+
+//@ pred added(b, n) = b.err == nil && grown(b.result, old(b.result), n) && forall(i, 0, len(old(b.result)), b.result[i] == old(b.result[i]))
+//@ pred skipped(b) = b.err != nil && hdr(b.result, old(b.result))
+
+//@ func (*Builder).AddUint8
+//@ props C22
+//@ may_panic_when b.err == nil && b.child != nil
+//@ modifies b.err
+//@ modifies b.result
+//@ modifies b.result[len(b.result):len(b.result)+1]
+//@ ensures skipped(b) || (added(b, 1) && b.result[len(b.result)-1] == v)
+
+//@ func (*Builder).AddUint16
+//@ props C22
+//@ may_panic_when b.err == nil && b.child != nil
+//@ modifies b.err
+//@ modifies b.result
+//@ modifies b.result[len(b.result):len(b.result)+2]
+//@ ensures skipped(b) || (added(b, 2) && b.result[len(b.result)-2]*256 + b.result[len(b.result)-1] == v)
+
+//@ func (*Builder).AddUint24
+//@ props C22
+//@ may_panic_when b.err == nil && b.child != nil
+//@ modifies b.err
+//@ modifies b.result
+//@ modifies b.result[len(b.result):len(b.result)+3]
+//@ ensures skipped(b) || (added(b, 3) && b.result[len(b.result)-3]*65536 + b.result[len(b.result)-2]*256 + b.result[len(b.result)-1] == v % 16777216)
+
+//@ func (*Builder).AddUint32
+//@ props C22
+//@ may_panic_when b.err == nil && b.child != nil
+//@ modifies b.err
+//@ modifies b.result
+//@ modifies b.result[len(b.result):len(b.result)+4]
+//@ ensures skipped(b) || (added(b, 4) && be(b.result[len(b.result)-4:], 4) == v)
+
+//@ func (*Builder).AddBytes
+//@ props C22
+//@ may_panic_when b.err == nil && b.child != nil
+//@ modifies b.err
+//@ modifies b.result
+//@ modifies b.result[len(b.result):len(b.result)+len(v)]
+//@ ensures skipped(b) || (added(b, len(v)) && forall(i, 0, len(v), b.result[len(old(b.result)) + i] == old(v[i])))
+
+//@ func (*Builder).Bytes
+//@ props C22
+//@ pure
+//@ may_panic_when b.err == nil && (b.offset < 0 || b.offset > len(b.result))
+//@ ensures implies(b.err != nil, result0 == nil && result1 == b.err)
+//@ ensures implies(b.err == nil, result1 == nil && view(result0, b.result, b.offset, len(b.result)))
+
+// flushChild: the pending child c's length prefix is filled in and the parent
+// takes over c's buffer. L is the length of c's content; for an ASN.1 child
+// the DER length needs k extra octets (0 for L <= 127).
+//@ pred derk(L) = ite(L <= 127, 0, ite(L <= 255, 1, ite(L <= 65535, 2, ite(L <= 16777215, 3, 4))))
+
+//@ func (*Builder).flushChild
+//@ props C22
+//@ requires !b.fixedSize || b.child == nil
+//@ requires b.child == nil || (b.child != b && b.child.child == nil && binv(b.child) && b.child.pendingLenLen <= 4 && implies(b.child.pendingIsASN1, b.child.pendingLenLen == 1))
+//@ let c = b.child
+//@ let R = b.child.result
+//@ let off = b.child.offset
+//@ let ll = b.child.pendingLenLen
+//@ let L = len(b.child.result) - b.child.pendingLenLen - b.child.offset
+//@ let asn = b.child.pendingIsASN1
+//@ let cerr = b.child.err
+//@ let k = derk(L)
+//@ ensures b.child == nil
+//@ ensures implies(c == nil, b.err == old(b.err) && hdr(b.result, old(b.result)))
+//@ ensures implies(c != nil && cerr != nil, b.err == cerr && hdr(b.result, old(b.result)))
+// plain length prefix
+//@ ensures implies(c != nil && cerr == nil && !asn && L >= spec.pow2f(8*ll), b.err != nil)
+//@ ensures implies(c != nil && cerr == nil && !asn && L < spec.pow2f(8*ll), b.err == old(b.err) && hdr(b.result, R) && be(b.result[off:], ll) == L)
+//@ ensures implies(c != nil && cerr == nil && !asn && L < spec.pow2f(8*ll), forall(i, 0, off, b.result[i] == old(R[i])) && forall(i, off + ll, len(R), b.result[i] == old(R[i])))
+// ASN.1 (DER) length
+//@ ensures implies(c != nil && cerr == nil && asn && L > 4294967294, b.err != nil)
+//@ ensures implies(c != nil && cerr == nil && asn && L <= 4294967294 && b.err == old(b.err), len(b.result) == len(R) + k && b.result[off] == ite(k == 0, L, 128 + k) && implies(k > 0, be(b.result[off+1:], k) == L))
+//@ ensures implies(c != nil && cerr == nil && asn && L <= 4294967294 && b.err == old(b.err), forall(i, 0, off, b.result[i] == old(R[i])) && forall(i, 0, L, b.result[off + 1 + k + i] == old(R[off + 1 + i])))
+//@ ensures implies(c != nil && cerr == nil && asn && L <= 4294967294 && !c.fixedSize, b.err == old(b.err))
+//@ loop 1 invariant -1 <= i && i < child.pendingLenLen && 0 <= child.pendingLenLen && child.pendingLenLen <= 4 && length >= 0
+//@ loop 1 invariant l == length / spec.pow2f(8*(child.pendingLenLen - 1 - i))
+//@ loop 1 invariant forall(j, i+1, child.pendingLenLen, child.result[child.offset + j] == (length / spec.pow2f(8*(child.pendingLenLen - 1 - j))) % 256)
+//@ loop 1 invariant forall(j, 0, len(child.result), implies(j < child.offset || j >= child.offset + child.pendingLenLen, child.result[j] == before(child.result[j])))
+//@ loop 1 invariant 0 <= child.offset && child.offset + child.pendingLenLen <= len(child.result)
